@@ -26,12 +26,15 @@ func runC12(r *engine.Run) {
 	r.Rule("AGREE-limits", "the two wire entry points (path export import and block-proof verification) configure the same CBOR decoding limits: a proof or export that one accepts is not rejected by the other for its size")
 	r.Rule("EXH-W", "see C09: markToCollect resolves a collapsed position before interpreting it")
 	r.Rule("ORDER-hashfresh", "see C10: in the Serialize methods of the hashed node kinds every read of a cached hash (the receiver's hash field, a child's Hash()) is reached only on paths where the receiver's dirty flag tested false or CalcHash() was called on the receiver: proofs and exported paths (which serialise nodes directly, possibly after an update and before the next Root()/Commit) never carry a stale hash")
-	r.Rule("DOM-marked", "in markToCollect every success return of the branch arm and of the shared-prefix arm is dominated by toCollect = true on that node: a node on the path of a requested key is exported in full also when the key is absent below it (a later insert of that key rewrites exactly this node)")
+	r.Rule("DOM-marked", "in markToCollect every success return of the branch arm and of the shared-prefix arm is dominated by toCollect = true on that node: a node on the path of a requested key is exported in full also when the key is absent below it (a later insert of that key rewrites exactly this node); in GetPath the branch root below which the parallel workers mark is itself marked before the workers start")
 	r.Rule("DOM-nodb", "resolve reaches the storage lookup only where t.db != nil tested (or resolveHashNode has a nil-error return under db == nil): a storage-less partial trie keeps an unresolved reference in the branch reduction of delete instead of failing where the full trie succeeds")
 	r.Rule("DOM-childhash", "in deserializeTrie the subtree returned by each recursive call is stored into its parent, and only where bytes.Equal(parent's placeholder hash, child hash) tested true; Deserialize marks the decoded root dirty, recomputes its hash and returns success only where the transmitted root hash equals the recomputed one")
 	r.Rule("AGREE-persist", "see C10: serialised fields = deserialised fields")
 	r.Rule("LOCK-mark", "each worker of GetPath's parallel collection holds a mutex from before its markToCollect call until after the write-back of the marked child (Lock dominates the call, no Unlock in between)")
 	r.Rule("AGREE-ref", "every hashNode built in the package has both its hash and its weight set: a reference stands for a subtree's identity and weight")
+	r.Rule("AGREE-slotpos", "markToCollect descends into branch slot key[pos] continuing at pos+1, and below a shared-prefix node n continuing at pos+len(n.key) only where bytes.Equal(n.key, key[pos:pos+len(n.key)]) tested true: the nodes marked for export are exactly those on the requested key's path")
+	r.Rule("AGREE-copyroot", "in CopyRoot of a node kind with children every return not reached under level == collapseLevel is a newly built node of the receiver's own kind whose child slots are filled only by CopyRoot(level+1, collapseLevel) of the children: above the collapse level a snapshot has the same node kinds as the trie (the shallow Copy() turns embedded shared-prefix children into bare hash references)")
+	r.Rule("ORDER-errstore", "in the weighted trie a store of the node result of a call that also returns an error into a field or slot of a live (not freshly built) node is reached only where that error tested nil: a failed storage read never erases a slot of the in-memory trie")
 	r.NotDec = append(r.NotDec, "root/weight equality after mirrored updates (value-level)", "the import-side hash checks (not necessary for honest exports)")
 	agreeBranches(r)
 	agreeEmbed(r)
@@ -46,6 +49,9 @@ func runC12(r *engine.Run) {
 	lockMark(r, "LOCK-mark")
 	refComplete(r, "AGREE-ref")
 	agreePersist(r, "AGREE-persist")
+	orderErrStore(r, "ORDER-errstore")
+	agreeCopyRoot(r, "AGREE-copyroot")
+	agreeSlotPos(r, "AGREE-slotpos")
 }
 
 func exhWSubset(r *engine.Run, rule string, name string) {
@@ -335,6 +341,8 @@ func runC13(r *engine.Run) {
 	r.Rule("DOM-sameroot", "every storage delete in RollbackTrie is reached only where bytes.Equal(requested root hash, current root hash) did not test true: asked for the root it already has, RollbackTrie purges nothing")
 	r.Rule("DOM-cleanfail", "see C11: a failed delete leaves its search path clean (otherwise the next commit records unchanged checkpoint nodes as created and a rollback deletes them)")
 	r.Rule("AGREE-created", "in each arm of commit a node's hash is recorded as created under the same 'hash changed' condition under which its previous hash is recorded as deleted: a node whose hash did not change existed at the checkpoint and must not be removed by a rollback")
+	r.Rule("FRESH-hashbuf", "a node's hash, once computed, is an immutable value: in the weighted trie no value derived from a load of a node's hash field is the destination of copy, the base of append, the target of an element store or, re-sliced, an argument of a call. Hash() hands out the slice itself and the checkpoint, the scheduled deletes and the hash references keep it uncopied")
+	r.Rule("DOM-createdkept", "in Commit every reset of the created list (a store of nil / an empty slice into the field, directly or in a callee up to two levels down) is reached only on paths where the root's Dirty() tested true: a Commit that has nothing to save leaves the list a rollback works from alone")
 	r.NotDec = append(r.NotDec, "resolvability of every checkpoint node after rollback for every history (value-level)")
 	agreeRollback(r)
 	agreeCheckpoint(r)
@@ -344,6 +352,8 @@ func runC13(r *engine.Run) {
 	domSameRoot(r, "DOM-sameroot")
 	rollbackInstalls(r, "AGREE-rollback")
 	domCleanFail(r, "DOM-cleanfail")
+	domCreatedKept(r, "DOM-createdkept")
+	freshHashBuf(r, "FRESH-hashbuf")
 }
 
 func bookkeepingResets(f *ssa.Function) (map[string]bool, bool, bool) {
@@ -755,6 +765,82 @@ func domMarked(r *engine.Run, rule string) {
 				"a node on the path of a requested key is returned unmarked: it is exported as a bare hash, and an insert of that (absent) key fails or diverges on the partial trie")
 		}
 	}
+	// GetPath's parallel collection starts below a branch root: the root itself
+	// is on every requested path and is marked by GetPath, before the workers start
+	gp := wfn(r, rule, "GetPath")
+	if gp != nil {
+		for _, an := range gp.AnonFuncs {
+			engine.Instrs(an, func(in ssa.Instruction) {
+				c, ok := in.(*ssa.Call)
+				if !ok || c.Call.StaticCallee() != f {
+					return
+				}
+				var nodeArg ssa.Value
+				for i, p := range f.Params {
+					if ssa.Value(p) == nodeP && i < len(c.Call.Args) {
+						nodeArg = c.Call.Args[i]
+					}
+				}
+				arr, _, ok := loadOfIndex(nodeArg)
+				if !ok {
+					return
+				}
+				base, ok := childrenOf(arr)
+				if !ok {
+					return
+				}
+				// the branch is a captured variable: find its binding at the closure's creation
+				var branch ssa.Value
+				var made *ssa.MakeClosure
+				viaCell := false
+				if ld, ok := base.(*ssa.UnOp); ok && ld.Op == token.MUL {
+					if _, ok := ld.X.(*ssa.FreeVar); ok {
+						base, viaCell = ld.X, true // captured by reference: a cell holding the branch
+					}
+				}
+				if fv, ok := base.(*ssa.FreeVar); ok {
+					engine.Instrs(gp, func(in2 ssa.Instruction) {
+						mc, ok := in2.(*ssa.MakeClosure)
+						if !ok || mc.Fn != ssa.Value(an) {
+							return
+						}
+						for i, v := range an.FreeVars {
+							if v == fv && i < len(mc.Bindings) {
+								branch, made = mc.Bindings[i], mc
+							}
+						}
+					})
+				}
+				n++
+				good := false
+				if branch != nil {
+					engine.Instrs(gp, func(in2 ssa.Instruction) {
+						st, ok := in2.(*ssa.Store)
+						if !ok {
+							return
+						}
+						fa, ok := st.Addr.(*ssa.FieldAddr)
+						if !ok || engine.FieldOf(fa).Name() != "toCollect" {
+							return
+						}
+						if viaCell {
+							ld, ok := fa.X.(*ssa.UnOp)
+							if !ok || ld.Op != token.MUL || ld.X != branch {
+								return
+							}
+						} else if fa.X != branch {
+							return
+						}
+						if k, ok := st.Val.(*ssa.Const); ok && k.Value != nil && k.Value.ExactString() == "true" && engine.InstrDominates(st, made) {
+							good = true
+						}
+					})
+				}
+				r.Check(good, rule, fn(gp)+"|branch root of the parallel collection", r.P.Pos(c.Pos()), "the branch whose children the workers mark is itself marked before the workers are started",
+					"the parallel collection marks the nodes below the root branch but not the root branch itself: collectNodes exports an unmarked branch as a bare hash, so the export consists of the root's hash only")
+			})
+		}
+	}
 	if n < 3 {
 		r.Anchor(rule, fmt.Errorf("unresolved anchor: %d success returns in the branch/shared-prefix arms of markToCollect", n))
 	}
@@ -1105,5 +1191,89 @@ func rollbackInstalls(r *engine.Run, rule string) {
 		scan(f)
 		r.Check(records, rule, fn(f)+"|records created hashes", r.P.Pos(f.Pos()), "the created-hash handler appends each received hash to the created list",
 			"the hashes of the nodes a commit writes are no longer recorded: a rollback cannot remove what the rolled-back commit created")
+	}
+}
+
+// domCreatedKept: the created list is what a rollback removes from storage. A
+// commit that saves nodes starts a new list; a Commit that finds nothing to
+// save (root not dirty) must leave the list of the preceding commit alone,
+// otherwise checkpoint / changes / Commit / Commit (periodic flush, retry) /
+// rollback leaves every node of the rolled-back commit in storage.
+//
+// Rule: in Commit every reset of `created` (a store of nil or an empty slice
+// into the field, directly or in a callee up to two levels down) is reached
+// only on paths where the root's Dirty() tested true.
+func domCreatedKept(r *engine.Run, rule string) {
+	f := wfn(r, rule, "Commit")
+	if f == nil {
+		return
+	}
+	var resetsCreated func(g *ssa.Function, depth int) bool
+	resetsCreated = func(g *ssa.Function, depth int) bool {
+		found := false
+		engine.Instrs(g, func(in ssa.Instruction) {
+			switch x := in.(type) {
+			case *ssa.Store:
+				if fld := engine.FieldOf(x.Addr); fld != nil && fld.Name() == "created" {
+					if nilConst(x.Val) {
+						found = true
+					}
+					if ms, ok := x.Val.(*ssa.MakeSlice); ok {
+						if k, ok := intConst(ms.Len); ok && k == 0 {
+							found = true
+						}
+					}
+					if sl, ok := x.Val.(*ssa.Slice); ok && sl.High != nil {
+						if k, ok := intConst(sl.High); ok && k == 0 {
+							found = true
+						}
+					}
+				}
+			case *ssa.Call:
+				if sc := x.Call.StaticCallee(); sc != nil && depth < 2 && len(sc.Blocks) > 0 && sc != g && inRepo(sc) {
+					if resetsCreated(sc, depth+1) {
+						found = true
+					}
+				}
+			}
+		})
+		return found
+	}
+	n := 0
+	o := ord{}
+	engine.Instrs(f, func(in ssa.Instruction) {
+		var site ssa.Instruction
+		switch x := in.(type) {
+		case *ssa.Store:
+			if fld := engine.FieldOf(x.Addr); fld != nil && fld.Name() == "created" {
+				if _, isLoadAppend := x.Val.(*ssa.Call); !isLoadAppend {
+					site = x
+				}
+			}
+		case *ssa.Call:
+			if sc := x.Call.StaticCallee(); sc != nil && len(sc.Blocks) > 0 && inRepo(sc) && sc != f && resetsCreated(sc, 1) {
+				site = x
+			}
+		}
+		if site == nil {
+			return
+		}
+		n++
+		dirty := false
+		if facts, ok := engine.FactsOn(f, site.Block()); ok {
+			for _, ft := range facts {
+				if ft.Kind != "bool" || !ft.Truth {
+					continue
+				}
+				if c, ok := ft.A.(*ssa.Call); ok && c.Call.IsInvoke() && c.Call.Method.Name() == "Dirty" {
+					dirty = true
+				}
+			}
+		}
+		r.Check(dirty, rule, o.next(fn(f)+"|created reset"), r.P.Pos(site.Pos()), "the created list is reset only where the root's Dirty() tested true",
+			"Commit resets the created list on a path where it has not established that there is anything to save: a Commit with nothing dirty (periodic flush, retry) wipes the list the preceding commit wrote, so a rollback no longer removes the nodes that commit created")
+	})
+	if n < 1 {
+		r.Anchor(rule, fmt.Errorf("unresolved anchor: no reset of the created list reachable from Commit"))
 	}
 }
